@@ -2,7 +2,7 @@
    the inputs the real install / upgrade / template / lint ran on, compares the projected
    outcome, and compares [valid] with the real jsonschema library's verdicts. *)
 From Coq Require Import List String Bool Arith ZArith.
-From Helm Require Import Common.Strs Values.Tree Values.Schema2 Values.Schema Values.Scope Values.Deps Values.Gate.
+From Helm Require Import Common.Strs Values.Tree Values.Schema2 Values.Schema Values.SchemaOld Values.Scope Values.Deps Values.Gate.
 Import ListNotations.
 
 Inductive op := OpInstall | OpInstallPlain | OpInstallDry | OpTemplate | OpUpgrade | OpUpgradeDry | OpLint.
@@ -66,7 +66,8 @@ Definition obs_agree (m o : obs) : bool :=
   && Bool.eqb (o_lint_values m) (o_lint_values o).
 
 Definition pairs_agree (ps : list (schema * val * bool)) : bool :=
-  forallb (fun p => Bool.eqb (valid (fst (fst p)) (snd (fst p))) (snd p)) ps.
+  forallb (fun p => Bool.eqb (valid (fst (fst p)) (snd (fst p))) (snd p)
+                    && agrees_on (fst (fst p)) (snd (fst p))) ps.   (* ... and the document evaluator on doc_of s *)
 
 (* schemas given as documents: (document, final values of the chart, the library's verdict through
    ValidateAgainstSingleSchema, the generator's claim that the document is inside the model's
